@@ -1,10 +1,12 @@
 """C15: launch statistics list every launch/activity pair exactly."""
 import tracegen
 import framework as fw
+import translate
 
 ID = "C15"
 COQ_IMPORTS = ["From HTA.model Require Import C15_Model."]
 SOURCES = {"hta/analyzers/cuda_kernel_analysis.py": ["cuda_kernel_launch_stats"]}
+TRANSLATE = [translate.gen_launch_stats]
 INPUT_CONTRACT = True        # the loaded frame is re-checked against the file (framework.input_contract)
 N_CASES = {"quick": 300, "thorough": 4000}
 RULE = ("generated well-formed file sets (profiles default/fifo_tiny/fifo_steps/free_overlap (the last one places device activities anywhere, also before their launch call), 1-3 ranks, missing kernels, orphan kernels, "
@@ -109,7 +111,8 @@ def classify(case, impl, model, disc):
 LEVEL_TEXT = ("Proof: Coq theorems C15_rows_bijection / C15_values / C15_memory_flag about the Gallina model of cuda_kernel_launch_stats "
               "(row list = exactly the linked launch/activity pairs, each once; values; flag semantics), for all frames; tied to the code by a "
               "correspondence run comparing every row of get_cuda_kernel_launch_stats with the model evaluated in Coq on the loaded frame."
-              " C15_resolution_independent: times multiplied by k >= 0 multiply durations and delay of every row by k.")
+              " C15_resolution_independent: times multiplied by k >= 0 multiply durations and delay of every row by k."
+              " C15_rules_follow_source: the launch names and the delay rule are regenerated from cuda_kernel_launch_stats on every run (strict reading of the per-rank loop).")
 LEVEL_NOTE = ("Model is hand-written (pandas isin/merge/clip); tie = correspondence on generated traces only. Hypothesis wf_launch (launch call's "
               "correlation id unique on stream -1) is the property's own quantifier. Trusted: Coq kernel, harness, pandas.")
 TECHNIQUE = "Coq proof over Gallina model + differential correspondence (vm_compute) against the public API"
